@@ -439,7 +439,7 @@ func runC35(args []string) {
 				if r.Chance(1, 12) {
 					max = 65536
 					if thorough && r.Chance(1, 4) {
-						max = 2 << 20
+						max = 1 << 20
 					}
 				}
 				vecs[i] = c35Pattern(r, c35Size(r, max))
